@@ -15,8 +15,10 @@ type Event struct {
 	Data   []byte `json:"data"`
 }
 
-func (e Event) IsNoteOn() bool  { return e.Status&0xF0 == 0x90 && e.Data[1] > 0 }
-func (e Event) IsNoteOff() bool { return e.Status&0xF0 == 0x80 || e.Status&0xF0 == 0x90 && e.Data[1] == 0 }
+func (e Event) IsNoteOn() bool { return e.Status&0xF0 == 0x90 && e.Data[1] > 0 }
+func (e Event) IsNoteOff() bool {
+	return e.Status&0xF0 == 0x80 || e.Status&0xF0 == 0x90 && e.Data[1] == 0
+}
 func (e Event) IsMeta(t byte) bool {
 	return e.Status == 0xFF && e.Meta == t
 }
